@@ -1390,7 +1390,9 @@ private:
       /* end preserve coherence */
     }
 
-    integer_tightening();
+    if (!integer_tightening()) {
+      return false;
+    }
 
     check_potential(m_graph, m_potential, __LINE__);
     CRAB_LOG("octagon-add", crab::outs() << "End adding: " << *this << "\n"
@@ -1459,8 +1461,7 @@ private:
       }
     }
 
-    integer_tightening();
-    return true;
+    return integer_tightening();
   }
 
   interval_t compute_residual(const linear_expression_t &e, variable_t pivot) {
@@ -1515,7 +1516,12 @@ private:
     return x_out;
   }
 
-  void integer_tightening() {
+  // Round the bounds 2x <= k and -2x <= k with k odd down to k-1.
+  // A tightened edge can violate the potential function, so it must
+  // be repaired like after any other edge update; otherwise later
+  // calls to repair_potential miss negative cycles.
+  // Return false (and set to bottom) iff the tightened octagon is empty.
+  bool integer_tightening() {
 #ifdef INTEGER_TIGHTENING
     for (vert_id v : m_graph.verts()) {
       wt_ref_t w;
@@ -1530,6 +1536,10 @@ private:
 	Wt tightened_w = w.get() - Wt(1);
 	m_graph.set_edge(v, tightened_w, v + 1);
         CRAB_LOG("octagon-integer", crab::outs() << tightened_w << "\n";);
+	if (!repair_potential(v, v + 1)) {
+	  set_to_bottom();
+	  return false;
+	}
       }
       if (v % 2 != 0 && (m_graph.lookup(v, v - 1, w)) && (w.get() & 1)) {
         // weight is odd so we need to tighten it
@@ -1542,9 +1552,14 @@ private:
 	Wt tightened_w = w.get() - Wt(1);
 	m_graph.set_edge(v, tightened_w, v - 1);
         CRAB_LOG("octagon-integer", crab::outs() << tightened_w << "\n";);
+	if (!repair_potential(v, v - 1)) {
+	  set_to_bottom();
+	  return false;
+	}
       }
     }
 #endif
+    return true;
   }
 
   // Restore the bounds once the relations of a meet have been closed:
@@ -1567,7 +1582,8 @@ private:
           return false;
       }
     }
-    integer_tightening();
+    if (!integer_tightening())
+      return false;
     for (vert_id v : m_graph.verts()) {
       wt_ref_t w_lb, w_ub;
       if (v % 2 == 0 && m_graph.lookup(v, v + 1, w_lb) &&
